@@ -336,8 +336,11 @@ class Engine:
         hop = layer_hop(sc) if overlap else None
         hop_dur = None
         if overlap:
-            hop_dur = (hop + 0.5) / sr
-            if int(hop_dur * sr) != hop or not hop_dur < sc["block_dur"]:
+            # a duration on which floor and round agree (how the hop is
+            # rounded is not fixed by any statement)
+            hop_dur = (hop + 0.25) / sr
+            if (int(hop_dur * sr) != hop or round(hop_dur * sr) != hop
+                    or not hop_dur < sc["block_dur"]):
                 overlap, hop, hop_dur = False, None, None
 
         def start(cutbytes):
@@ -410,8 +413,25 @@ class Engine:
         else:
             for i, (tok, (njudged, served, eof)) in enumerate(zip(toks, at)):
                 s_, e_ = tok[1], tok[2]
+                if not overlap:
+                    want_b = (min((e_ + 1) * bsz, total) - s_ * bsz) * bps
+                    try:
+                        got_b = len(bytes(regs[i]))
+                    except Exception:
+                        got_b = None
+                    if got_b != want_b:
+                        # the region is not that token's audio: pairing it
+                        # with the token would mis-attribute (C05/C06)
+                        out["probes"]["l2_region_is_not_the_token"] = 1
+                        break
                 d = nwin if eof else njudged - 1
                 msg = self._latency(i, s_, e_, d, nwin, mx, ms, seen, ms)
+                if msg and eof and njudged == nwin:
+                    # a reader that completes a ragged last frame meets the
+                    # end of the source while the LAST frame is in flight:
+                    # that frame may have decided the token
+                    msg = self._latency(i, s_, e_, nwin - 1, nwin, mx, ms,
+                                        seen, ms)
                 if msg:
                     return V("C08.6", "split() over %s, region %d: %s" % (
                         "an overlapping reader (hop %d of %d samples)" % (
@@ -421,7 +441,12 @@ class Engine:
                 # so far require (one window of slack for a source that
                 # delivers a window in pieces is not needed: judged in
                 # samples, not in calls)
-                if not eof and served > needed(njudged, total):
+                # For split() over a reader its input is that reader: how
+                # the reader chunks its own reads of the raw source is not
+                # split()'s laziness - less than one further frame of slack.
+                slack = 0 if sc["via"] == "source" else (
+                    hop if overlap else bsz) - 1
+                if not eof and served > needed(njudged, total) + slack:
                     return V("C08.6", "split() region %d handed over after "
                              "%d samples had been pulled; the %d frames "
                              "judged so far need %d" % (
@@ -507,9 +532,8 @@ class Engine:
                 # the hand-over: the tokenizer thread gives the detection to
                 # this observer (whatever the inbox is made of)
                 if isinstance(message, tuple):
-                    src_ = res["src"]
-                    self.sent.append((len(src_.served_bytes()),
-                                      src_.eof_returned))
+                    c_ = res["cnt"]
+                    self.sent.append((c_["frames"], c_["eof"]))
                 return super().send(message)
 
         def main():
@@ -518,6 +542,21 @@ class Engine:
             reader = AudioReader(src, block_dur=sc["block_dur"])
             obs = res["obs"] = RecObs()
             tok = W.TokenizerWorker(reader, [obs], **kw)
+            # what the detector itself has pulled is counted where it pulls
+            # it - the worker's own read() - not at the raw source (a worker
+            # that decouples capture from detection stays lazy in this sense)
+            cnt = res["cnt"] = {"frames": 0, "eof": 0, "calls": 0}
+            tok_read = tok.read
+
+            def counting_read():
+                b = tok_read()
+                cnt["calls"] += 1
+                if b is None:
+                    cnt["eof"] += 1
+                else:
+                    cnt["frames"] += 1
+                return b
+            tok.read = counting_read
             tok.start_all()
             tok.join()
             obs.join()
@@ -572,14 +611,19 @@ class Engine:
         sent = res["obs"].sent
         got = res["obs"].got
         at = {}
-        if len(toks) == len(sent):
-            total = len(data) // bps
-            for i, (tok, (served_b, eof)) in enumerate(zip(toks, sent)):
-                frames = -(-(served_b // bps) // bsz)
+        if not res.get("cnt", {}).get("calls"):
+            # the worker does not pull through its read(): no vantage point
+            out["probes"]["l3_worker_read_not_used"] = 1
+        elif len(toks) == len(sent):
+            for i, (tok, (frames, eof)) in enumerate(zip(toks, sent)):
                 d = nwin if eof else frames - 1
                 at[i] = d + 1
                 msg = self._latency(i, tok[1], tok[2], d, nwin, params["mx"],
                                     params["ms"], valid3, params["ms"])
+                if msg and eof and frames == nwin:
+                    msg = self._latency(i, tok[1], tok[2], nwin - 1, nwin,
+                                        params["mx"], params["ms"], valid3,
+                                        params["ms"])
                 if msg:
                     return V("C08.6", "pipeline: %s" % msg,
                              "C08.6:pipe_latency")
